@@ -303,7 +303,13 @@ func genOne(cs *genCase) *genOut {
 				if f.B64 != "" {
 					data, _ = base64.StdEncoding.DecodeString(f.B64)
 				}
-				if f.Make != nil {
+				if f.Make != nil && f.Make.Kind == "damage" {
+					var cur []byte
+					if x, ok := fsys.Files[f.Path]; ok {
+						cur = x.Data
+					}
+					data = damageArtifact(cur, f.Make.Key)
+				} else if f.Make != nil {
 					data = makeFixture(f.Make, madeKeys)
 				}
 				fsys.Put(f.Path, data)
@@ -751,4 +757,66 @@ func makeFixture(m *genMake, keys map[string]any) []byte {
 		pem.Encode(&bb, &pem.Block{Type: "PRIVATE KEY", Bytes: marshalPKCS8Variant(key, m.Variant)})
 	}
 	return bb.Bytes()
+}
+
+// damageArtifact turns a good artifact file into one of the hostile states of the C20 catalogue.
+func damageArtifact(cur []byte, state string) []byte {
+	p := project.ParsePem(cur)
+	block := func(t string, der []byte) []byte {
+		var bb bytes.Buffer
+		pem.Encode(&bb, &pem.Block{Type: t, Bytes: der})
+		return bb.Bytes()
+	}
+	hashLine := []byte{}
+	if p.HasHash {
+		hashLine = []byte(project.HashPrefix + p.HashText + "\n")
+	}
+	certB, keyB := []byte{}, []byte{}
+	if p.Cert != nil {
+		certB = block("CERTIFICATE", p.Cert)
+	}
+	if p.Key != nil {
+		keyB = block("PRIVATE KEY", p.Key)
+	}
+	cat := func(parts ...[]byte) []byte { return bytes.Join(parts, nil) }
+	switch state {
+	case "garbage":
+		return []byte("this is not a pem file\n")
+	case "hash-not-at-start":
+		return cat([]byte("# a comment line the user added\n"), cur)
+	case "hash-no-newline":
+		return bytes.TrimRight(hashLine, "\n")
+	case "hash-only":
+		return hashLine
+	case "pkcs1-key":
+		k, _ := rsa.GenerateKey(crand.Reader, 1024)
+		return cat(hashLine, certB, block("RSA PRIVATE KEY", x509.MarshalPKCS1PrivateKey(k)))
+	case "sec1-key":
+		k, _ := ecdsa.GenerateKey(elliptic.P256(), crand.Reader)
+		der, _ := x509.MarshalECPrivateKey(k)
+		return cat(hashLine, certB, block("EC PRIVATE KEY", der))
+	case "cert-of-other-key":
+		k, _ := ecdsa.GenerateKey(elliptic.P256(), crand.Reader)
+		der, _ := x509.MarshalPKCS8PrivateKey(k)
+		return cat(hashLine, certB, block("PRIVATE KEY", der))
+	case "cert-only":
+		return cat(hashLine, certB)
+	case "key-only":
+		return cat(hashLine, keyB)
+	case "empty":
+		return []byte{}
+	case "binary-noise":
+		b := make([]byte, 300)
+		crand.Read(b)
+		return b
+	case "two-certs":
+		return cat(hashLine, certB, certB, keyB)
+	case "csr-and-key":
+		return cat(hashLine, certB, keyB, foreignCsr("both"))
+	case "hash-bad-base64":
+		return cat([]byte("#HASH:!!!not base64!!!\n"), certB, keyB)
+	case "crlf":
+		return bytes.ReplaceAll(cur, []byte("\n"), []byte("\r\n"))
+	}
+	return cur
 }
